@@ -88,7 +88,12 @@ Inductive envcase :=
 | HRecv (p : proto) (max : N) (a : option algo) (parse_ok : bool)
         (cs : list bytes) (f : fin) (observed : list obs)
 (* a unary Connect handler: one message or an error *)
-| HUnary (max : N) (a : option algo) (cs : list bytes) (f : fin) (observed : obs).
+| HUnary (max : N) (a : option algo) (cs : list bytes) (f : fin) (observed : obs)
+(* cross-decoding: a body WRITTEN by the implementation (request body of a real
+   client, response body of a real handler) must be decoded by the model's
+   reader to exactly the messages given to the sending API, followed by a clean
+   end (term = None) or by one special envelope with the given flags *)
+| XDecode (a : option algo) (body : bytes) (msgs : list bytes) (term : option N).
 
 Definition env_ok (c : envcase) : bool :=
   match c with
@@ -100,4 +105,21 @@ Definition env_ok (c : envcase) : bool :=
     let r := unary_unmarshal_c bytes toy_unmarshal (algo_decompress a) max
                        (match a with Some _ => true | None => false end) [] (mkT cs f) in
     obs_eqb (match r with inl m => OMsg m | inr REOF => OEOF | inr (RErr c) => OErr c end) observed
+  | XDecode a body msgs term =>
+    let pool := match a with Some _ => true | None => false end in
+    let rs := recv_n_f bytes toy_unmarshal (algo_decompress a) [] (length msgs + 2) 0 pool (body, CleanEOF) in
+    let is_msg (r : uresult bytes) (m : bytes) := match r with UMsg x => bs_eqb x m | _ => false end in
+    let fix go (rs : list (uresult bytes)) (ms : list bytes) : bool :=
+        match ms, rs with
+        | m :: ms', r :: rs' => is_msg r m && go rs' ms'
+        | [], r :: rs' =>
+          match term, r with
+          | None, UErr REOF => true
+          | Some fl, USpecial fl' _ => ((fl =? fl') || (N.lor fl flag_compressed =? fl')) &&   (* the terminator itself may be compressed *)
+              match rs' with UErr REOF :: _ => true | _ => false end   (* nothing after the terminator *)
+          | _, _ => false
+          end
+        | _, [] => false
+        end in
+    go rs msgs
   end.
